@@ -46,7 +46,15 @@ def candidates(rng):
     from furax.operators.toeplitz import SymmetricBandToeplitzOperator
     tb = SymmetricBandToeplitzOperator(gen.arr([[4, 1], [3, -1]]), gen.S(2, n if n > 1 else 2), method='dense')
     e, _ = gen.gen_expression(rng, 4, 2)
+    # multi-dimensional diagonal values laid along permuted axes of a leaf whose shape the permutation preserves
+    from furax._base.diagonal import DiagonalOperator
+    pshape, paxes = rng.choice([((3, 3), (1, 0)), ((2, 2), (-1, -2)), ((2, 3, 2), (2, 1, 0)), ((2, 2, 3), (1, 0, 2)),
+                                ((3, 2), (0, 1)), ((2, 3), (1, 0))])
+    vshape = tuple(pshape[a] for a in paxes)
+    pvals = gen.arr(np.arange(1, int(np.prod(vshape)) + 1, dtype=np.float64).reshape(vshape))
+    dperm = DiagonalOperator(pvals, axis_destination=paxes, in_structure=gen.S(*pshape))
     return [
+        ('diagonal-permuted-axes', dperm), ('diagonal-permuted-axes-inverse', dperm.I),
         ('identity', IdentityOperator(tree)), ('homothety', gen.mk_homothety(rng, tree)), ('diagonal', d),
         ('diagonal-pytree', dt), ('diagonal-inverse', d.I), ('sum', AdditionOperator([d, t, gen.mk_homothety(rng, s)])),
         ('block-row', BlockRowOperator({'y': d, 'x': t})), ('block-diag', BlockDiagonalOperator([d, [t, dt]])),
